@@ -6,7 +6,6 @@ import (
 	"sort"
 	"strings"
 	"sync"
-	"time"
 
 	"golang.org/x/tools/go/ssa"
 )
@@ -15,6 +14,7 @@ import (
 type Shared struct {
 	prog      *ssa.Program
 	implCache sync.Map
+	sideCache sync.Map
 	sizes     types.Sizes
 	initMu    sync.Mutex
 	initInfos map[*ssa.Package]*initInfo
@@ -27,6 +27,7 @@ type Stats struct {
 	branchQueries int
 	unknownBranch int
 	summaries     int
+	ifConversions int
 }
 
 type nondet struct {
@@ -83,6 +84,8 @@ type Exec struct {
 	lastRecovered *goPanic
 	effects   map[string]Value // harness scratch
 	local     *localCtx
+	ifc       *ifcCtx
+	noIfConv  bool
 	sumCache  map[*ssa.Function]bool
 
 	// config
@@ -143,7 +146,7 @@ func (e *Exec) site(id string) *siteStat {
 // path condition / solver
 
 func (e *Exec) addPC(c *Term) {
-	if e.local != nil {
+	if e.local != nil || e.ifc != nil {
 		panic(localFail{"assume in summarised function"})
 	}
 	if c.konst {
@@ -200,6 +203,9 @@ func (e *Exec) branch(c *Term) bool {
 	if n := e.not(c); e.knownTrue[n.s] {
 		return false
 	}
+	if e.ifc != nil {
+		panic(localFail{"symbolic branch inside if-converted side"})
+	}
 	if e.local != nil {
 		return e.localBranch(c)
 	}
@@ -238,50 +244,35 @@ func (e *Exec) concretize(t *Term, what string) uint64 {
 	if v, ok := e.known[t.s]; ok {
 		return v
 	}
-	if e.local != nil {
+	if e.local != nil || e.ifc != nil {
 		panic(localFail{"concretize in summarised function"})
 	}
 	d := e.decide(func() []uint64 {
 		var vals []uint64
-		s := e.solver
-		s.send("(push 1)")
+		var excl []*Term
 		for {
-			s.send("(check-sat)")
-			s.in.Flush()
-			s.queries++
-			t0 := time.Now()
-			line := s.readLine()
-			for strings.HasPrefix(line, "(error") {
-				s.errors++
-				s.lastErr = line
-				line = s.readLine()
-			}
-			s.time += time.Since(t0)
-			if line == "unsat" {
+			r := e.solver.checkPushed(excl)
+			if r == rUnsat {
 				break
 			}
-			if line != "sat" {
-				s.send("(pop 1)")
+			if r != rSat {
 				e.abort("concretize: solver unknown for " + what)
 			}
-			m := s.getValues([]string{t.s})
+			m := e.solver.getValues([]string{t.s})
 			var v uint64
 			ok := false
 			for _, mv := range m {
 				v, ok = parseBV(mv)
 			}
 			if !ok {
-				s.send("(pop 1)")
 				e.abort("concretize: cannot parse model value for " + what)
 			}
 			vals = append(vals, v)
 			if len(vals) > e.maxEnum {
-				s.send("(pop 1)")
 				e.abort(fmt.Sprintf("concretize: more than %d feasible values for %s", e.maxEnum, what))
 			}
-			s.send(fmt.Sprintf("(assert (not (= %s %s)))", t.s, bvLit(t.sort.w, v)))
+			excl = append(excl, e.not(e.eq(t, mkBV(t.sort.w, v))))
 		}
-		s.send("(pop 1)")
 		sort.Slice(vals, func(i, j int) bool { return vals[i] < vals[j] })
 		return vals
 	})
@@ -317,7 +308,7 @@ func (e *Exec) assertObligation(id string, ok *Term, what string) {
 
 // assertK: as assertObligation but failures inside `class` are reported as known finding `kf`
 func (e *Exec) assertK(id string, ok *Term, class *Term, kf string, what string) {
-	if e.local != nil {
+	if e.local != nil || e.ifc != nil {
 		panic(localFail{"assertion in summarised function"})
 	}
 	st := e.site(id)
@@ -402,6 +393,7 @@ func (e *Exec) runPath(prefix []uint64, fn *ssa.Function) (out pathOutcome) {
 	e.initRan = map[*ssa.Function]bool{}
 	e.effects = map[string]Value{}
 	e.local = nil
+	e.ifc = nil
 	if e.sumCache == nil {
 		e.sumCache = map[*ssa.Function]bool{}
 	}
@@ -554,6 +546,16 @@ func (e *Exec) globalCell(g *ssa.Global) *Cell {
 	stores := ii.byRoot[g]
 	if len(stores) > 0 || len(ii.explicit[g]) > 0 {
 		saveFrame, saveDepth := e.curFrame, e.depth
+		// initialisers always run in normal mode, whatever speculative mode the reader is in
+		saveLocal, saveIfc := e.local, e.ifc
+		e.local, e.ifc = nil, nil
+		completed := false
+		defer func() {
+			e.local, e.ifc = saveLocal, saveIfc
+			if !completed {
+				delete(e.globals, g)
+			}
+		}()
 		fr := e.initFrames[g.Pkg]
 		if fr == nil {
 			fr = &frame{fn: ii.fn, regs: map[ssa.Value]Value{}}
@@ -569,6 +571,7 @@ func (e *Exec) globalCell(g *ssa.Global) *Cell {
 			}
 		}
 		e.curFrame, e.depth = saveFrame, saveDepth
+		completed = true
 	}
 	return c
 }
